@@ -17,6 +17,7 @@ func init() {
 		"(2) REORDER: the only sort calls reorder AndFunctions of one rule or Params of one function; the rule slice is only appended to in index order / written by original index; " +
 		"(3) DEDUP: values are de-duplicated by key+value, never by value alone; (4) ALIAS: the complete table of Name/Key rewrites equals the documented alias table and nothing else writes Function.Name/Not or Param.Key/Val; " +
 		"(5) PIPELINE: every optimizer pipeline is built from audited optimizers, deep-clones first, and geodata expansion keeps every non-geodata parameter and errors on unsupported combinations. " +
+		"(6) MEMOKEY: the cache key of each memoising geodata loader carries all the information of every parameter the cached expansion is computed from (forward dataflow through strings.Cut). " +
 		"Not decided: equality of decisions on concrete packets, geodata file content."})
 }
 
@@ -26,6 +27,7 @@ func runC04(c *Ctx) {
 	c04Dedup(c)
 	c04Alias(c)
 	c04Pipelines(c)
+	c04MemoKey(c)
 }
 
 // optimizerMethods returns the Optimize methods of every RulesOptimizer
